@@ -455,8 +455,8 @@ class Interp:
             return True
         elif isinstance(v, Mon) or isinstance(v, Opaque):
             pass
-        elif isinstance(v, (bool, int, str, tuple, list, dict, type(None),
-                            Fraction)):
+        elif isinstance(v, (bool, int, float, complex, str, bytes, tuple, list,
+                            dict, set, frozenset, type(None), Fraction)):
             return bool(v)
         if self.decide is None:
             raise AnalysisError(f"branch on a symbolic value: "
@@ -681,7 +681,8 @@ class Interp:
             if e.id in self.calls or e.id in _BUILTINS:
                 return Opaque(f"function {e.id}")
             if e.id.endswith(("Warning", "Error", "Exception")) or e.id in (
-                    "object", "complex", "float", "dict", "set", "frozenset"):
+                    "object", "complex", "float", "dict", "set", "frozenset",
+                    "str", "int", "list", "tuple", "bool", "type"):
                 return Opaque(f"class {e.id}")
             raise AnalysisError(f"name {e.id} is not bound in the abstract state")
         if isinstance(e, ast.Tuple):
@@ -766,6 +767,9 @@ class Interp:
                                                   dict(self.globals))
                     return Bound(r[1], base, dict(self.globals))
                 raise Raised(e)
+            if isinstance(base, (dict, list, set, frozenset, str, tuple)) and \
+                    e.attr in _SAFE_METHODS and hasattr(base, e.attr):
+                return getattr(base, e.attr)
             if self.attrs is not None:
                 return self.attrs(self, e, base, e.attr)
             raise AnalysisError(f"attribute {ast.unparse(e)}")
@@ -941,6 +945,28 @@ class Interp:
             if isinstance(base, str):
                 return base.join(args[0])
         short = fname.split(".")[-1]
+        if fname == "isinstance" and len(args) == 2:
+            r = default_isinstance(args[0], args[1])
+            if r is not None:
+                return r
+        if fname.startswith("re.") and all(isinstance(a, (str, int))
+                                           for a in args):
+            import re as _re
+            if hasattr(_re, short) and short in ("sub", "match", "fullmatch",
+                                                 "search", "escape", "split"):
+                return getattr(_re, short)(*args, **kw)
+        if fname == "getattr" and len(args) in (2, 3) and isinstance(args[1], str):
+            # through the attribute rules of the abstract state
+            probe = ast.Attribute(value=ast.Name(id="_obj", ctx=ast.Load()),
+                                  attr=args[1], ctx=ast.Load())
+            ast.copy_location(probe, e)
+            ast.fix_missing_locations(probe)
+            try:
+                return self.eval(probe, {"_obj": args[0]})
+            except Raised:
+                if len(args) == 3:
+                    return args[2]
+                raise
         if fname in ("sorted", "min", "max") and isinstance(kw.get("key"),
                                                               Closure):
             k = kw["key"]
@@ -985,6 +1011,44 @@ _CONCRETE = {
     ast.BitXor: lambda a, b: a ^ b,
     ast.Div: lambda a, b: Fraction(a) / b,
 }
+_SAFE_METHODS = {"get", "items", "keys", "values", "setdefault", "pop", "copy",
+                 "update", "append", "extend", "add", "discard", "union",
+                 "count", "index", "startswith", "endswith", "join", "split",
+                 "strip", "replace", "lower", "upper", "format", "isidentifier",
+                 "isdigit"}
+_PY_TYPES = {"dict": dict, "Mapping": dict, "MutableMapping": dict, "list": list,
+             "tuple": tuple, "str": str, "int": int, "float": float,
+             "complex": complex, "set": set, "frozenset": frozenset,
+             "bool": bool, "Sequence": (list, tuple), "Iterable": (
+                 list, tuple, set, frozenset, dict), "Hashable": (
+                 int, str, tuple, frozenset, float)}
+
+
+def default_isinstance(v, c):
+    """isinstance() against a builtin / collections.abc class named by an
+    opaque value; None if the class is not one of those"""
+    names = [getattr(x, "what", "") for x in (c if isinstance(c, tuple) else [c])]
+    tys = []
+    for w in names:
+        key = w.split(" ")[-1].split(".")[-1]
+        if key not in _PY_TYPES:
+            return None
+        t = _PY_TYPES[key]
+        tys.extend(t if isinstance(t, tuple) else [t])
+    if isinstance(v, bool) and int in tys and bool not in tys:
+        return True
+    if isinstance(v, Poly):
+        if not v.is_const():
+            return None         # a symbolic scalar: its type is not known
+        c0 = v.const_value()
+        v = int(c0) if c0.denominator == 1 else c0
+        if not isinstance(v, int):
+            return None
+    elif isinstance(v, (Mon, Opaque)):
+        return None
+    return isinstance(v, tuple(tys))
+
+
 _DUNDER = {
     ast.Add: ("__add__", "__radd__"), ast.Sub: ("__sub__", "__rsub__"),
     ast.Mult: ("__mul__", "__rmul__"), ast.Div: ("__truediv__", "__rtruediv__"),
@@ -1029,6 +1093,43 @@ def _is_generator_fn(fn):
                 return True
         return False
     return walk(fn)
+
+
+def module_env(tree, extra=None):
+    """the module-level names a function of that module sees: functions as
+    closures, classes and imported names as opaque values, simple constants
+    (numbers, strings, None, empty containers, object() sentinels) as
+    themselves"""
+    glob = dict(extra or {})
+    for st in tree.body:
+        if isinstance(st, ast.FunctionDef):
+            glob.setdefault(st.name, Closure(st, glob))
+        elif isinstance(st, ast.ClassDef):
+            glob.setdefault(st.name, Opaque(f"class {st.name}"))
+        elif isinstance(st, (ast.Import, ast.ImportFrom)):
+            for a in st.names:
+                nm = (a.asname or a.name).split(".")[0]
+                glob.setdefault(nm, Opaque(f"module {a.name}")
+                                if isinstance(st, ast.Import) else
+                                Opaque(f"imported {a.name}"))
+        elif isinstance(st, (ast.Assign, ast.AnnAssign)):
+            tg = st.targets[0] if isinstance(st, ast.Assign) else st.target
+            v = st.value
+            if not isinstance(tg, ast.Name) or v is None:
+                continue
+            if isinstance(v, ast.Constant):
+                glob.setdefault(tg.id, v.value)
+            elif isinstance(v, ast.Dict) and not v.keys:
+                glob.setdefault(tg.id, {})
+            elif isinstance(v, (ast.List, ast.Tuple, ast.Set)) and not v.elts:
+                glob.setdefault(tg.id, [] if isinstance(v, ast.List) else
+                                () if isinstance(v, ast.Tuple) else set())
+            elif isinstance(v, ast.Call) and ast.unparse(v) in (
+                    "object()", "dict()", "set()", "list()"):
+                glob.setdefault(tg.id, {"object()": object(), "dict()": {},
+                                        "set()": set(), "list()": []}[
+                                            ast.unparse(v)])
+    return glob
 
 
 def explore(run, max_decisions=12, max_runs=512):
